@@ -69,8 +69,17 @@ bool known_unreadable_length_no_progress(int in_kind, const std::string& payload
 template <class T>
 void run_root(int root, int in_kind, const Pattern& pat, const std::string& payload, const uint8_t* data, size_t size) {
   std::string desc = std::string(root_names()[root]) + " via " + in_name(in_kind) + " chunks " + pat.str() + " payload " + hex(payload, 300);
-  if (known_f5_vector_reserve_unlimited_stream<T>(in_kind, payload) && !allow_known("f5")) {
+  // F5 proper (token f5): the root itself is a float/double vector on a limit-less stream
+  if (in_is_unlimited_stream(in_kind) && f5_reserves<T>::value && !allow_known("f5")) {
     vfz::label("excluded_known_f5");
+    return;
+  }
+  // Harness resource bound, independent of any finding: on a limit-less stream PushLimit accepts an announced
+  // length far beyond the data and vector<float/double> reserves it up front (up to 2 GiB from 6 bytes). That is
+  // neither memory corruption nor non-termination, so it is not judged; such payloads are skipped because hundreds
+  // of these reservations per input would only trip the allocation watchdog.
+  if (in_is_unlimited_stream(in_kind) && !f5_reserves<T>::value && f5_reserve_reach<T>() && has_big_varint(payload)) {
+    vfz::label("skipped_huge_announced_length_on_unlimited_stream");
     return;
   }
   if (known_unreadable_length_no_progress<T>(in_kind, payload) && !allow_known("c11-no-progress")) {
